@@ -1,5 +1,5 @@
 """C39 — SFTP writes are never lost to the background download
-(frontends/sftpd.py: OverwriteableFileConsumer)."""
+(frontends/sftpd.py: OverwriteableFileConsumer, GeneralSFTPFile)."""
 import os
 import tempfile
 
@@ -9,34 +9,47 @@ DRIVER = "C39"
 GENERATED = []
 SOURCES = ["src/allmydata/frontends/sftpd.py"]
 DESIGN_REF = "DESIGN.md §2 C39"
-TECHNIQUE = ("Lean 4 refinement theorem over an executable step-function model of OverwriteableFileConsumer "
-             "(download chunks, overwrite, set_current_size, read, download_done, eventual-queue turns, close); "
-             "differential correspondence of whole event histories against the real class over a real temporary file")
-LEVEL_TEXT = ("Refinement to a byte-array reference proved in Lean for every history and every chunking (for the code with "
-              "fixes/C39-overwrite-merge.diff applied; a `decide`d counterexample for the code as it is); the model is tied to "
-              "frontends/sftpd.py by comparing file bytes, downloaded/download_size/current_size, both heaps, done_status and every "
-              "read result after each event of seeded histories.")
-LEVEL_NOTE = ("Lean kernel + standard axioms; model hand-written, tied by correspondence. The caller contract in read()'s docstring "
-              "(no overwrites / size changes while a read is pending) is a hypothesis; two pending reads with the same milestone "
-              "index (heapq compares Deferreds -> TypeError on Python 3) are outside the model.")
-RULE = ("seeded histories (<=20 events quick, plus drain) of download chunks of random sizes / overwrite / set_current_size / read / "
-        "download_done / eventual-queue turn / close against a real OverwriteableFileConsumer over tempfile.TemporaryFile (every 4th "
-        "history again over EncryptedTemporaryFile, monitor only); a case is one event; distinct = distinct (internal state before, "
-        "event) pairs; non-trivial = the overwrites heap is non-empty or a read is pending when the event is applied; plus real "
-        "GeneralSFTPFile handles on the in-process grid (existing immutable and mutable files opened read/write without TRUNC/CREAT): "
-        "a fixed corpus of pipelined open/write/close histories with 0/1/3/all scheduler steps between requests and a random family "
-        "drawing the number of scheduler steps between requests — stored contents after a successful close must equal the reference; "
-        "has_changed per event, close outcome and committed contents are compared with the handle model (driver command c39h)")
+TECHNIQUE = ("Lean 4 refinement theorems over two executable models: the step function of OverwriteableFileConsumer (download chunks, "
+             "overwrite, set_current_size, read, download_done, eventual-queue turns, close) and the request queue / has_changed / "
+             "close-commit logic of GeneralSFTPFile above it; differential correspondence of whole event histories against the real "
+             "class over a real temporary file, and of real GeneralSFTPFile handles on an in-process grid against the handle model")
+LEVEL_TEXT = ("Proved in Lean for the code as it is in /repo (fixes 59fffcf overwrite-merge and d9a6762 setAttrs/has_changed included), "
+              "for every allowed history and every chunking of the download: refines_reference / final_file_is_reference (every completed "
+              "read and, once the download is done, the temporary file equal the reference byte array), client_write_beats_later_download, "
+              "reference_frozen_while_read_pending, reads_answered_once_done, and at handle level handle_close_commits_writes_and_size_changes "
+              "(from handle_close_commits_reference: a successful close stores exactly the reference whenever a write or size change was "
+              "accepted, wherever close falls relative to the start of the download). `decide`d counterexamples for the earlier code and the "
+              "seeded variants: asIs_clobbers_client_write_counterexample, seedE_pipelined_close_loses_write_counterexample, "
+              "preFix_size_change_only_not_stored_counterexample. Both models are tied to frontends/sftpd.py by correspondence after every event.")
+LEVEL_NOTE = ("Lean kernel + standard axioms (propext, Classical.choice, Quot.sound); models hand-written, tied by correspondence. "
+              "Hypotheses of the theorems: the caller contract in read()'s docstring (no overwrite / size change while a read is pending, "
+              "none after close) and download_done(bytes) only after the last chunk. Reads are proved against the reference at completion "
+              "time; that this is the reference at issue time uses reference_frozen_while_read_pending plus the (unproved, by inspection) fact "
+              "that a read stays queued from issue to completion. Outside the models: two pending reads with the same milestone index "
+              "(heapq compares Deferreds -> TypeError on Python 3), GeneralSFTPFile.readChunk (it drops the consumer's Deferred, so a write "
+              "queued after a pending read is seen by that read), FXF_APPEND, abandon/rename, the directory update of the commit.")
+RULE = ("a fixed corpus first (independent of VERIF_SEED; VERIF_CORPUS_ONLY=1 runs only it): one minimal history per repaired defect and "
+        "seeded change; then seeded histories (<=20 events quick, plus drain) of download chunks of random sizes / overwrite / "
+        "set_current_size / read / download_done / eventual-queue turn / close against a real OverwriteableFileConsumer over "
+        "tempfile.TemporaryFile (every 4th history again over EncryptedTemporaryFile, monitor only); a case is one event; distinct = "
+        "distinct (internal state before, event) pairs; non-trivial = the overwrites heap is non-empty or a read is pending when the "
+        "event is applied; plus real GeneralSFTPFile handles on the in-process grid (existing immutable and mutable files opened "
+        "read/write without TRUNC/CREAT): a fixed corpus of pipelined open/write/close and size-change-only histories with 0/1/3/all "
+        "scheduler steps between requests and a random family drawing the number of scheduler steps between requests — stored contents "
+        "after a successful close must equal the reference; has_changed after every event, close outcome and committed contents are "
+        "compared with the handle model (driver command c39h)")
 TRUSTED = ["lean/Tahoe/Sftp/Consumer.lean is a hand transcription of OverwriteableFileConsumer (heapq heaps as sorted lists, "
            "eventually() as a FIFO queue flushed by an explicit event, the while loop of write() with fuel = heap length)",
            "the temporary file is modelled as a POSIX regular file (write/truncate past the end zero-fill)",
            "lean/Tahoe/Sftp/Handle.lean is a hand transcription of GeneralSFTPFile's async_ queue, has_changed and close/_commit "
            "(the upload is one atomic read of the temporary file); harness/grid.py (in-process grid) and the observation wrappers "
            "around OverwriteableFileConsumer.__init__/write/download_done/get_file in harness/props/c39.py"]
-ASSUMPTIONS = ["the caller performs no overwrite / set_current_size while a read's Deferred is unfired (read() docstring)",
+ASSUMPTIONS = ["the caller performs no overwrite / set_current_size while a read's Deferred is unfired (read() docstring); "
+               "GeneralSFTPFile.readChunk itself does not honour this (outside C39's anchors, reported)",
                "the producer delivers the original contents in order, and download_done(bytes) is only called by the download after "
                "it delivered everything (GeneralSFTPFile.open wiring)",
-               "no two simultaneously pending reads have the same milestone index (otherwise heapq raises TypeError — noted, unmodelled)"]
+               "no two simultaneously pending reads have the same milestone index (otherwise heapq raises TypeError — noted, unmodelled)",
+               "the upload at commit reads the temporary file atomically (after done_status is success no download write changes it: Inv.D)"]
 
 
 # ----------------------------------------------------------------------------- driving the real class
